@@ -267,6 +267,29 @@ fn literals(out: &mut Out, rng: &mut Rng, tier: &str) {
         }
         n_fs += 1;
     }
+    // float literal values: what the formatter writes must be read back as the same f64 (no model: oracle only)
+    let mut floats: Vec<f64> = vec![0.0, 1.0, 0.1, 0.5, 3.14159, 1e10, 123456789.125, 4503599627370496.0, 9007199254740993.0, 9223372036854775807.0,
+        9223372036854775808.0, 1e19, 6.0e23, 1e100, 1.0e300, 1.7976931348623157e308, 5e-324, 2.2250738585072014e-308, 1e-7, 0.000123, 1e21, 1e22, 255.0, 65536.0];
+    for _ in 0..(n / 4) {
+        let f = f64::from_bits(rng.next());
+        if f.is_finite() && f >= 0.0 { floats.push(f); }
+        floats.push((rng.below(1 << 20) as f64) * 10f64.powi(rng.below(40) as i32 - 10));
+    }
+    let mut n_ff = 0u32;
+    for f in &floats {
+        let lit = format!("{f:?}");
+        let src = format!("def g() -> None:\n    v = {lit}\n");
+        let lexed = |t: &str| -> Option<f64> { incan_syntax::lexer::lex(t).ok().and_then(|toks| toks.iter().find_map(|k| match &k.kind { TokenKind::Float(x) => Some(*x), _ => None })) };
+        // only literals the lexer reads as this very value are in scope
+        if lexed(&src).map(|x| x.to_bits()) != Some(f.to_bits()) { continue; }
+        let real = match catch(|| incan::format_source(&src)) {
+            Ok(Ok(t)) => match lexed(&t) { Some(x) => format!("{:x}", x.to_bits()), None => "relex-failed".to_string() },
+            _ => "format-failed".to_string(),
+        };
+        n_ff += 1;
+        out.case(&format!("c08 floatback {:x}", f.to_bits()), &real);
+    }
+    out.meta(&serde_json::json!({"float_values_formatted": n_ff}));
     // arbitrary literal texts through the real lexer (fidelity of the scanner models, error paths included)
     for _ in 0..n {
         let len = rng.below(9) as usize;
